@@ -6,7 +6,8 @@ repaired tree (nil rules skipped in `LoadRules`; circuit breaker per-resource pa
 
 * A *rule* is the record of the fields that `IsValidRule`, the module's equality and `reflect.DeepEqual`
   and the getters look at — all of them, the optional `ID` included.  `float64` fields travel as **halves**
-  (`th2 = 3` is `1.5`): every comparison the code does on them is then exact integer arithmetic.
+  (`th2 = 3` is `1.5`), the flow and circuit-breaker `Threshold` — compared with a tolerance by the code and loaded with
+  huge or fractional values — as the exact integer number of 2^-60 units (`thQ`): every comparison is exact integer arithmetic.
 * Go maps `map[string][]…` are total functions `String → List …` with `[]` for "absent" (the managers never
   store an empty list in `currentRules`, and an empty controller list is indistinguishable from an absent
   key through the getters and the slots) plus the list of keys needed to decide `reflect.DeepEqual`.
@@ -16,7 +17,8 @@ repaired tree (nil rules skipped in `LoadRules`; circuit breaker per-resource pa
 * Controller reuse (`calculateReuseIndexFor`, flow, hotspot and circuit breaker; identities of the controller objects: `buildZ` / `runC`): a controller whose old rule is equal to the new one
   for the module's own equality (`flowIsEqualsTo`, `hotEquals`, transcribed field by field) is kept **with the old rule
   object**; `bound` holds those objects (what the getters return), `enf` the rules the controllers were asked to be
-  built from.  The two agree up to `canon` (the ID; hotspot: the behaviour-irrelevant field) — `Inv.bound`.  A record
+  built from.  The two agree up to `sim` (the ID; hotspot: the behaviour-irrelevant field; flow / breaker: a threshold
+  within `Float64Equals`' 1e-8) — `Inv.bound`.  A record
   carries EVERY field of the Go struct (incl. `ID`), so a field dropped from an equality shows up as a stale getter.
 -/
 namespace Sentinel.Rules
@@ -35,12 +37,19 @@ def firstTrue (i : Nat) : List Bool → Nat
   | [] => 0
   | b :: bs => if b then i else firstTrue (i + 1) bs
 
+/-- one unit of the `Threshold` fields of flow and circuit breaker: `Threshold = th / 2^60` -/
+def thQ : Int := 2 ^ 60
+
+/-- `util.Float64Equals(x, y)`: `|x - y| < 0.00000001`, the constant being the double `0x1.5798ee2308c3ap-27`
+    = `0x15798ee2308c3a · 2^-79` (the float subtraction of two doubles this close is exact) -/
+def f64Equals (x y : Int) : Bool := decide ((x - y).natAbs * 2 ^ 19 < 0x15798ee2308c3a)
+
 structure FlowRule where
   id : String      -- ID (optional, read by nothing but the getters and DeepEqual)
   res : String
   tcs : Int        -- TokenCalculateStrategy (int32): 0 Direct, 1 WarmUp, 2 MemoryAdaptive
   cb : Int         -- ControlBehavior (int32): 0 Reject, 1 Throttling
-  th2 : Int        -- Threshold, in halves
+  th : Int         -- Threshold, in units of 2^-60 (every float64 of magnitude ≥ 2^-8 is such an integer)
   rel : Int        -- RelationStrategy (int32): 0 current, 1 associated
   ref : String
   maxQ : Nat
@@ -57,7 +66,7 @@ deriving DecidableEq, Repr, Inhabited
 def flowClause (tm : Int) (r : FlowRule) : Nat :=
   firstTrue 1
     [ decide (r.res = ""),
-      decide (r.th2 < 0),
+      decide (r.th < 0),
       decide (r.tcs < 0),
       decide (r.cb < 0),
       decide (¬ (0 ≤ r.rel ∧ r.rel ≤ 1)),
@@ -81,7 +90,7 @@ def flowNorm (r : FlowRule) : FlowRule := if r.tcs = 1 ∧ r.wuCf ≤ 1 then { r
 /-- `(*Rule).isEqualsTo` of flow (`Float64Equals` is exact on halves): decides controller reuse -/
 def flowIsEqualsTo (a b : FlowRule) : Bool :=
   a.res == b.res && a.rel == b.rel && a.ref == b.ref && a.statMs == b.statMs && a.tcs == b.tcs && a.cb == b.cb &&
-  a.th2 == b.th2 && a.maxQ == b.maxQ && a.wuPeriod == b.wuPeriod && a.wuCf == b.wuCf &&
+  f64Equals a.th b.th && a.maxQ == b.maxQ && a.wuPeriod == b.wuPeriod && a.wuCf == b.wuCf &&
   a.lowMem == b.lowMem && a.highMem == b.highMem && a.memLow == b.memLow && a.memHigh == b.memHigh
 
 /-- `(*Rule).isStatReusable` of flow -/
@@ -89,8 +98,11 @@ def flowStatReusable (a b : FlowRule) : Bool :=
   a.res == b.res && a.rel == b.rel && a.ref == b.ref && a.statMs == b.statMs &&
   (a.tcs == 1 || a.cb == 0) && (b.tcs == 1 || b.cb == 0)
 
-/-- the part of a flow rule that `isEqualsTo` looks at: everything but the ID -/
-def flowCanon (r : FlowRule) : FlowRule := { r with id := "" }
+/-- the part of a flow rule that `isEqualsTo` compares exactly: everything but the ID and the threshold -/
+def flowCanon (r : FlowRule) : FlowRule := { r with id := "", th := 0 }
+
+/-- "the same rule as far as `isEqualsTo` can tell": all fields but the ID equal, thresholds within the tolerance -/
+def flowSim (a b : FlowRule) : Bool := decide (flowCanon a = flowCanon b) && f64Equals a.th b.th
 
 structure IsoRule where
   id : String
@@ -161,7 +173,7 @@ structure CbRule where
   statMs : Nat
   buckets : Nat
   maxRt : Nat
-  th2 : Int        -- Threshold, in halves
+  th : Int         -- Threshold, in units of 2^-60
   probe : Nat
 deriving DecidableEq, Repr, Inhabited
 
@@ -170,9 +182,9 @@ def cbClause (r : CbRule) : Nat :=
     [ decide (r.res = ""),
       decide (r.statMs = 0),
       decide (r.retryMs = 0),
-      decide (r.th2 < 0),
-      decide (r.strategy = 0 ∧ r.th2 > 2),
-      decide (r.strategy = 1 ∧ r.th2 > 2) ]
+      decide (r.th < 0),
+      decide (r.strategy = 0 ∧ r.th > thQ),
+      decide (r.strategy = 1 ∧ r.th > thQ) ]
 
 def cbBuildable (r : CbRule) : Bool := r.strategy ≤ 2
 
@@ -180,14 +192,16 @@ def cbBuildable (r : CbRule) : Bool := r.strategy ≤ 2
 def cbIsEqualsTo (a b : CbRule) : Bool :=
   a.res == b.res && a.strategy == b.strategy && a.retryMs == b.retryMs && a.minReq == b.minReq && a.statMs == b.statMs &&
   a.buckets == b.buckets && a.probe == b.probe &&
-  (if b.strategy = 0 then a.maxRt == b.maxRt && a.th2 == b.th2 else if b.strategy = 1 ∨ b.strategy = 2 then a.th2 == b.th2 else false)
+  (if b.strategy = 0 then a.maxRt == b.maxRt && f64Equals a.th b.th else if b.strategy = 1 ∨ b.strategy = 2 then f64Equals a.th b.th else false)
 
 /-- `(*Rule).isStatReusable` of the circuit breaker -/
 def cbStatReusable (a b : CbRule) : Bool :=
   a.res == b.res && a.strategy == b.strategy && a.statMs == b.statMs && a.buckets == b.buckets
 
-/-- the part of a breaker rule that `isEqualsTo` looks at: no ID, `MaxAllowedRtMs` only under SlowRequestRatio -/
-def cbCanon (r : CbRule) : CbRule := { r with id := "", maxRt := if r.strategy = 0 then r.maxRt else 0 }
+/-- the part of a breaker rule that `isEqualsTo` compares exactly: no ID, no threshold, `MaxAllowedRtMs` only under SlowRequestRatio -/
+def cbCanon (r : CbRule) : CbRule := { r with id := "", th := 0, maxRt := if r.strategy = 0 then r.maxRt else 0 }
+
+def cbSim (a b : CbRule) : Bool := decide (cbCanon a = cbCanon b) && f64Equals a.th b.th
 
 structure SysRule where
   id : String
@@ -241,21 +255,21 @@ structure RuleMod (R : Type) where
   equals : R → R → Bool
   /-- `old.isStatReusable(new)`: the old controller's statistic is handed to the new controller -/
   statReusable : R → R → Bool
-  /-- the rule with everything `equals` ignores blanked out -/
-  canon : R → R
+  /-- "the same rule as far as the module's equality can tell" (reflexive; `equals` need not be) -/
+  sim : R → R → Bool
 
 def flowMod (tm : Int) : RuleMod FlowRule :=
   { res := (·.res), valid := fun r => flowClause tm r = 0, buildable := flowBuildable, norm := flowNorm, scopedRes := true, pubValid := false,
-    equals := flowIsEqualsTo, statReusable := flowStatReusable, canon := flowCanon }
+    equals := flowIsEqualsTo, statReusable := flowStatReusable, sim := flowSim }
 def isoMod : RuleMod IsoRule :=
   { res := (·.res), valid := fun r => isoClause r = 0, buildable := fun _ => true, norm := id, scopedRes := false, pubValid := false,
-    equals := fun _ _ => false, statReusable := fun _ _ => false, canon := id }   -- `ruleMap` holds the rules themselves: nothing is reused
+    equals := fun _ _ => false, statReusable := fun _ _ => false, sim := fun a b => decide (a = b) }   -- `ruleMap` holds the rules themselves: nothing is reused
 def hotMod : RuleMod HotRule :=
   { res := (·.res), valid := fun r => hotClause r = 0, buildable := hotBuildable, norm := hotNorm, scopedRes := true, pubValid := false,
-    equals := hotEquals, statReusable := hotStatReusable, canon := hotCanon }
+    equals := hotEquals, statReusable := hotStatReusable, sim := fun a b => decide (hotCanon a = hotCanon b) }
 def cbMod : RuleMod CbRule :=
   { res := (·.res), valid := fun r => cbClause r = 0, buildable := cbBuildable, norm := id, scopedRes := true, pubValid := true,
-    equals := cbIsEqualsTo, statReusable := cbStatReusable, canon := cbCanon }   -- (the getters read `breakerRules`, never a breaker's rule)
+    equals := cbIsEqualsTo, statReusable := cbStatReusable, sim := cbSim }   -- (the getters read `breakerRules`, never a breaker's rule)
 
 structure MState (R : Type) where
   /-- every key that may be present in `currentRules` -/
@@ -519,7 +533,7 @@ clock by 100 s before every probe).  `none` = the decision of some enforced rule
 
 /-- flow: `curCount + batch > threshold` (Reject) / `threshold ≤ 0 ∨ batch > threshold` (Throttling) with `curCount = 0` -/
 def flowProbe (enf : List FlowRule) (batch : Nat) : Option Bool :=
-  if enf.all (fun r => r.tcs = 0 ∧ r.rel = 0) then some (enf.any fun r => decide (2 * (batch : Int) > r.th2)) else none
+  if enf.all (fun r => r.tcs = 0 ∧ r.rel = 0) then some (enf.any fun r => decide ((batch : Int) * thQ > r.th)) else none
 
 /-! #### flow: a short sequence of requests at one instant after the idle gap
 
@@ -535,11 +549,11 @@ the sequence stops there). -/
 def flowSeqKnown (r : FlowRule) : Bool :=
   decide (r.rel = 0) &&
   (decide (r.tcs = 0) || decide (r.tcs = 2) ||
-   (decide (r.tcs = 1) && decide (r.cb = 0) && decide (r.th2 % 2 = 0) && decide (r.th2 % (2 * (r.wuCf : Int)) ≠ 0) &&
-    decide ((r.wuPeriod : Int) * r.th2 ≥ 1 + (r.wuCf : Int))))     -- maxToken > warningToken (else the slope is +Inf: C11's warmup-nan)
+   (decide (r.tcs = 1) && decide (r.cb = 0) && decide (r.th % thQ = 0) && decide (r.th ≤ 2 ^ 40 * thQ) && decide (r.th % ((r.wuCf : Int) * thQ) ≠ 0) &&
+    decide (2 * (r.wuPeriod : Int) * r.th ≥ (1 + (r.wuCf : Int)) * thQ)))     -- maxToken > warningToken (else the slope is +Inf: C11's warmup-nan)
 
-/-- the threshold in force, in halves -/
-def flowT2 (r : FlowRule) : Int := if r.tcs = 2 then 2 * r.highMem else r.th2
+/-- the threshold in force, in units of 2^-60 -/
+def flowT2 (r : FlowRule) : Int := if r.tcs = 2 then r.highMem * thQ else r.th
 
 /-- one request of `b` tokens against the rules in order; `n` tokens passed so far, `thr` = per rule, the pacer's
     `lastPassedTime - now` in ns (`none` = long ago).  Returns the pacers, blocked?, slept? -/
@@ -547,16 +561,16 @@ def flowReqRules : List FlowRule → List (Option Int) → Nat → Nat → List 
   | r :: rs, t :: ts, n, b =>
     if r.cb = 0 then
       let blocked : Bool :=
-        if r.tcs = 1 then decide (((n + b : Nat) : Int) * 2 * (r.wuCf : Int) > r.th2)   -- cold: (n+b) > T / coldFactor
-        else decide (2 * ((n + b : Nat) : Int) > flowT2 r)                               -- curCount + batch > threshold
+        if r.tcs = 1 then decide (((n + b : Nat) : Int) * (r.wuCf : Int) * thQ > r.th)   -- cold: (n+b) > T / coldFactor
+        else decide (((n + b : Nat) : Int) * thQ > flowT2 r)                               -- curCount + batch > threshold
       if blocked then (t :: ts, true, false)
       else let x := flowReqRules rs ts n b; (t :: x.1, x.2.1, x.2.2)
     else
       let T2 := flowT2 r
-      if T2 ≤ 0 ∨ 2 * (b : Int) > T2 then (t :: ts, true, false)
+      if T2 ≤ 0 ∨ (b : Int) * thQ > T2 then (t :: ts, true, false)
       else
         let statNs : Int := (if r.statMs = 0 then 1000 else (r.statMs : Int)) * 1000000
-        let interval : Int := (2 * (b : Int) * statNs + T2 - 1) / T2                     -- ceil(b / T * statIntervalNs)
+        let interval : Int := ((b : Int) * statNs * thQ + T2 - 1) / T2                     -- ceil(b / T * statIntervalNs)
         let fire : Bool := match t with | none => true | some a => decide (a + interval ≤ 0)
         if fire then let x := flowReqRules rs ts n b; (some 0 :: x.1, x.2.1, x.2.2)
         else
@@ -585,8 +599,8 @@ def isoProbe (enf : List IsoRule) (batch : Nat) : Bool := enf.any fun r => r.met
     (Modelled for `minReq ≠ 2`; the ratio strategies see ratio 1, which reaches every threshold ≤ 1.) -/
 def cbOpens (r : CbRule) : Bool :=
   decide (r.minReq ≤ 1) &&
-    (if r.strategy = 2 then decide (r.th2 < 4)          -- errorCount 1 ≥ uint64(threshold)
-     else decide (r.th2 ≤ 2))                            -- ratio 1 ≥ threshold
+    (if r.strategy = 2 then decide (r.th < 2 * thQ)          -- errorCount 1 ≥ uint64(threshold)
+     else decide (r.th ≤ thQ) || f64Equals thQ r.th)     -- ratio 1 > threshold || Float64Equals(1, threshold)
 def cbProbe (enf : List CbRule) : Bool := enf.any cbOpens
 
 /-- system: inbound request, idle inbound node, load = 4, cpu usage = 0.75 -/
